@@ -58,3 +58,23 @@ PROFILES = {
     "C13": {"quick": [SEED2, CORE3], "thorough": [SEED2, CORE4]},
     "C18": {"quick": [SEED2], "thorough": [SEED2]},
 }
+
+_SEQ_NOTE = ("Trusted: TLC, the Rust harness (shadow heap, observation code), the add-only hooks. Bounded: pool of 2-3 handles, depth and "
+             "alphabets of the scenario .cfg files; the code is bound to the model by replaying every explored transition (exact match of the "
+             "observable projection) and by monitor-validated traces, not by proof.")
+CLAIMS = {
+    "C01": {"text": "TLC explores every history of the op alphabet to the depth bound on a byte-level design model and checks Text = String-oracle text and every returned value on each transition; each transition is replayed on the real crate and on std String under every entry-point variant.", "note": _SEQ_NOTE, "ref": "DESIGN.md 5 C01"},
+    "C02": {"text": "Isolation (text, length, pointer of every non-target handle unchanged) is checked by TLC on every transition from seeds with shared/truncated-sibling/static-shared buffers; every transition replayed on the crate; the shim flags writes into a buffer whose count is above 1.", "note": _SEQ_NOTE, "ref": "DESIGN.md 5 C02"},
+    "C03": {"text": "Reference count = live handles, no dangling/leaked block, exact layouts, no resize under a reader, clean end of history: invariants of the design model (TLC) and, on the replayed code, facts observed by the shadow heap (guards, poison, quarantine) including failing-allocation histories.", "note": _SEQ_NOTE, "ref": "DESIGN.md 5 C03"},
+    "C05": {"text": "Fault enumeration inside the model: for every state of the seeded graph and every call, each allocator request the call issues is made to fail in turn; TLC checks outcome class, unchanged texts and accounting; every such transition is replayed with the shim failing exactly that request.", "note": _SEQ_NOTE, "ref": "DESIGN.md 5 C05"},
+    "C06": {"text": "Size arguments are explored by class (small values around every boundary plus the three symbolic classes above the allocator limit / above 2^56-1 / overflowing usize), each materialised as several concrete values on the code; TLC checks Err => nothing changed, Ok => postcondition.", "note": _SEQ_NOTE, "ref": "DESIGN.md 5 C06"},
+    "C07": {"text": "All byte indices 0..len+2 on texts mixing every character width in every storage state: TLC checks the panic set against the String oracle and that a rejected call changes nothing observable; replayed on the crate and on String.", "note": _SEQ_NOTE, "ref": "DESIGN.md 5 C07"},
+    "C08": {"text": "Every clone-family transition of the seeded graphs: no allocator request, same pointer for heap/static sources, equal text, continuation states explore dropping either side.", "note": _SEQ_NOTE, "ref": "DESIGN.md 5 C08"},
+    "C09": {"text": "Constructor storage (<=16 bytes: no allocation, not heap; longer: one allocation, capacity = length) and allocation-free inline edits checked on every transition of the seeded/core graphs and replayed through every construction route.", "note": _SEQ_NOTE, "ref": "DESIGN.md 5 C09"},
+    "C10": {"text": "Static handles: no allocation and same pointer for from_static_str/clone/pop/truncate/clear while longer than 16, always a prefix of the static text, static bytes compared with pristine copies after every replayed call.", "note": _SEQ_NOTE, "ref": "DESIGN.md 5 C10"},
+    "C11": {"text": "cap >= len invariant, with_capacity/reserve postconditions and no-reallocation-within-capacity checked by TLC on every transition and on the replayed code (the shim's realloc always moves, so a hidden reallocation is visible).", "note": _SEQ_NOTE, "ref": "DESIGN.md 5 C11"},
+    "C12": {"text": "Every growth event of the explored graphs (inline->heap, static->heap, shared copy, in-place realloc) satisfies len+len/2 <= cap' <= max(len+len/2, need).", "note": _SEQ_NOTE, "ref": "DESIGN.md 5 C12"},
+    "C13": {"text": "shrink_to/shrink_to_fit postconditions (texts unchanged, never grows, >= len, >= min(m,cap), exact landing) on heap unique/shared/over-allocated, inline and static targets.", "note": _SEQ_NOTE, "ref": "DESIGN.md 5 C13"},
+    "C18": {"text": "Every panic position of retain predicates and extend/collect iterators in every seeded storage state: text equals the String oracle's after the same panic, others untouched, nothing leaked (shadow heap).", "note": _SEQ_NOTE, "ref": "DESIGN.md 5 C18"},
+}
+NOT_YET = {}
